@@ -357,6 +357,82 @@ theorem calls_well_formed : ∀ c ∈ Gen.C03.calls, callOK c = true := by decid
 theorem publisher_sites_compare_conf :
     ∀ s ∈ Gen.C03.sites, s.target = .addPublisher → s.cmpPresent = true ∧ s.cmpIsFindConf = true := by decide
 
+
+/-! ### Part C: traces recorded at the real protocol servers -/
+
+theorem ite_some_ne_none (c : Prop) [Decidable c] (a b : String) :
+    (if c then some a else some b) ≠ none := by
+  split <;> simp
+
+theorem checkFrom_sound (secretOK : Bool) (prev evs : List Ev) (h : checkFrom secretOK prev evs = none) :
+    ∀ pre e post, evs = pre ++ e :: post → evProblem secretOK (prev ++ pre) e = none := by
+  induction evs generalizing prev with
+  | nil => intro pre e post he; cases pre <;> cases he
+  | cons x xs ih =>
+    intro pre e post he
+    simp only [checkFrom] at h
+    cases hx : evProblem secretOK prev x with
+    | some m => rw [hx] at h; cases h
+    | none =>
+      rw [hx] at h
+      cases pre with
+      | nil =>
+        simp only [List.nil_append, List.cons.injEq] at he
+        rw [← he.1]; simpa using hx
+      | cons y ys =>
+        simp only [List.cons_append, List.cons.injEq] at he
+        have := ih (prev ++ [x]) h ys e post he.2
+        rw [← he.1]
+        simpa [List.append_assoc] using this
+
+/-- **accepted traces are authorized**: in a connection trace the checker accepts, every attach the path
+    manager granted is for a request that (a) carried credentials the permission table admits for exactly
+    that name and the matching action, or (b) was SkipAuth and is preceded IN THE SAME CONNECTION by such an
+    admitted, non-SkipAuth, granted request for exactly that name and action — for a publisher by the
+    FindPathConf whose configuration it names in ConfToCompare — or (c) is a reader of a client that
+    presented the CDN secret. -/
+theorem accepted_trace_authorized (secretOK : Bool) (evs : List Ev) (h : checkTrace secretOK evs = none) :
+    ∀ pre e post, evs = pre ++ e :: post → e.isAttach = true →
+      ((e.kind == .addPub) = e.publish) ∧
+      ((e.skip = false ∧ e.admitted = true) ∨
+       (e.skip = true ∧ ∃ f ∈ pre, justifies f e = true) ∨
+       (e.skip = true ∧ secretOK = true ∧ e.kind = .addReader)) := by
+  intro pre e post he ha
+  have hp := checkFrom_sound secretOK [] evs h pre e post he
+  simp only [List.nil_append, evProblem, ha, Bool.not_true, Bool.false_eq_true, if_false] at hp
+  by_cases h1 : ((e.kind == EvKind.addPub) != e.publish) = true
+  · simp [h1] at hp
+  · simp only [h1] at hp
+    refine ⟨by simpa using h1, ?_⟩
+    cases hs : e.skip with
+    | false =>
+      simp only [hs, Bool.not_false, if_true] at hp
+      cases hadm : e.admitted with
+      | true => exact Or.inl ⟨rfl, rfl⟩
+      | false => simp [hadm] at hp
+    | true =>
+      simp only [hs, Bool.not_true, Bool.false_eq_true, if_false] at hp
+      by_cases hj : (pre.any fun f => justifies f e) = true
+      · rw [List.any_eq_true] at hj
+        obtain ⟨f, hf, hjf⟩ := hj
+        exact Or.inr (Or.inl ⟨rfl, f, hf, hjf⟩)
+      · simp only [hj] at hp
+        by_cases hsec : (secretOK && e.kind == EvKind.addReader) = true
+        · simp only [Bool.and_eq_true, beq_iff_eq] at hsec
+          exact Or.inr (Or.inr ⟨rfl, hsec.1, hsec.2⟩)
+        · simp only [hsec] at hp
+          exact absurd hp (ite_some_ne_none _ _ _)
+
+/-- what `justifies` gives for a publisher: the earlier request is an admitted FindPathConf for the same name
+    with Publish, and ConfToCompare names the configuration it returned. -/
+theorem justifies_publisher (f e : Ev) (hk : e.kind = .addPub) (h : justifies f e = true) :
+    f.kind = .find ∧ f.skip = false ∧ f.admitted = true ∧ f.granted = true ∧ f.name = e.name ∧
+    f.publish = e.publish ∧ e.conf ≠ 0 ∧ e.conf = f.conf := by
+  simp only [justifies, hk, Bool.and_eq_true, Bool.not_eq_true', beq_iff_eq, bne_iff_ne, ne_eq,
+    not_true_eq_false, Bool.or_eq_true, false_or, decide_eq_true_eq] at h
+  obtain ⟨⟨⟨⟨⟨h1, h2⟩, h3⟩, h4⟩, h5⟩, ⟨h6, h7⟩, h8⟩ := h
+  exact ⟨h6, h1, h2, h3, h4, h5, h7, h8⟩
+
 /-! ### non-vacuity -/
 
 section
